@@ -1,7 +1,8 @@
 """JSON case (one line of harness output) -> Coq term of type Exec.Runner.case"""
 
 HASH_N = {"sha256_256": 32, "sha256_192": 24, "sha256_128": 16,
-          "shake256_256": 32, "shake256_192": 24, "shake256_128": 16}
+          "shake256_256": 32, "shake256_192": 24, "shake256_128": 16,
+          "toy_256": 32, "toy_192": 24, "toy_128": 16}
 
 
 class Bases:
